@@ -4,9 +4,11 @@
 //!   text.layout  <fontspec> <bl> <al> <lhk> <lhv> <tc> <bg> <ul> <st> <x> <y> <cps>
 //!        -> `next=<x,y> bb=<x,y,w,h> px=<n>:<hash>:<extent>|-`
 //!        next = what `Text::draw` returns, bb = `Text::bounding_box()`, px = the pixel map left on the
-//!        draw_iter-only target R1 (number of pixels, hash, extent `x,y,w,h` or `-`), printed only when the
-//!        picture is determined by the layout alone (text colour == background colour, or neither set:
-//!        then no pixel depends on the glyph bitmaps, which are C14's topic), else `px=-`.
+//!        draw_iter-only target R1 (number of pixels, hash, extent `x,y,w,h` or `-`), printed when the op
+//!        determines the picture: for the harness-built fonts always (their atlas is the fixed bit pattern of
+//!        `with_font`, which the model recomputes), for built-in fonts only when the picture is determined by
+//!        the layout alone (text colour == background colour, or neither set: then no pixel depends on the
+//!        glyph bitmaps, which are C14's topic), else `px=-`.
 //!   text.tr      <the same tokens> <dx> <dy>
 //!        -> the same for `text.translate(d)`, plus ` mut=same|diff` (`translate_mut` vs `translate`)
 //!   text.measure <fontspec> <bl> <tc> <bg> <ul> <st> <x> <y> <cps>
@@ -39,7 +41,8 @@
 //! Observations outside the properties' quantifier (custom fonts with spacing > 0, neither text nor
 //! background colour): `draw_string` returns n*(cw+sp) past the start (one trailing spacing more than
 //! `measure_string`), and a custom-coloured decoration then extends `sp` columns beyond the box. Counted
-//! (`obs:*`), checked to be exactly that mechanism, not reported as failures.
+//! (`obs:*`); the oracles accept both the pinned value and the value `measure_string` predicts (the property
+//! would be met by either), anything else is a failure.
 use crate::common::*;
 use embedded_graphics::{
     image::ImageRaw,
@@ -480,8 +483,14 @@ impl Module for M {
          with line height (7: percent 100/150/37/0, pixels 0/25/7), colour/decoration option (10: text, both, solid \
          + custom decorations, background only, decorations only, transparent, TextColor decorations) and position \
          (2) rotating, plus seeded random parameter/string combinations; thorough: all fonts of three charsets, 500 \
-         random strings. measure/chain ops over the same fonts. A layout op is non-trivial when at least one pixel is \
-         drawn; distinct = distinct op text."
+         random strings. measure ops over the same fonts. chain ops (`text.chain`): every split point of 11 \
+         strings on the built-in fonts of the selection + 2 spaced harness-built fonts, alignment Left except \
+         every 11th op, plus seeded random pairs of which about 9 in 10 are in the property's scope (font \
+         without spacing, Left, continuation without newline, no CR before the joint); the counter \
+         `chain:applicable` says how many ops the chaining oracle judged. Pictures (`px=`) are compared with \
+         the model for every harness-built font and, for built-in fonts, for the styles whose picture does not \
+         depend on glyph bitmaps. A layout op is non-trivial when at least one pixel is drawn; distinct = \
+         distinct op text."
     }
 
     fn generate(&self, pid: &str, tier: Tier, rng: &mut Rng, emit: &mut dyn FnMut(String)) {
@@ -545,15 +554,24 @@ impl Module for M {
                             emit(format!("text.measure {} {} {} {} {} {} {} {} {}", font, combo % 4, col.0, col.1, col.2, col.3, pos.0, pos.1, cps_of(s)));
                         }
                     }
-                    // chaining: every split point of some strings, random pairs
-                    let chain_strings = ["AB", "Hello World", "A\nBC", "ab\n", "\ncd", "A\r", "xy\r\nz", "", "\u{1F600}\u{e9}"];
-                    for font in &fonts {
+                    // chaining: every split point of some strings, random pairs. The property's claim is about
+                    // fonts without spacing (all built-in fonts), a left-aligned continuation on the same line:
+                    // the generator spends about 7 of 8 ops there; the rest (spaced harness-built fonts, Center /
+                    // Right, a continuation with a newline, a CR before the joint) only feeds the model
+                    // comparison of the returned positions and the `chain:not-applicable-*` counters.
+                    let chain_strings = ["AB", "Hello World", "A\nBC", "ab\n", "\ncd", "A\r", "xy\r\nz", "", "\u{1F600}\u{e9}", "iW\n\nq~", "  x "];
+                    let spaced = |f: &String| f.starts_with("c:");
+                    let unspaced: Vec<String> = fonts.iter().filter(|f| !spaced(f)).cloned().collect();
+                    let mut chain_fonts: Vec<String> = unspaced.clone();
+                    chain_fonts.push(CUSTOM[0].to_string());
+                    chain_fonts.push(CUSTOM[5].to_string());
+                    for font in &chain_fonts {
                         for s in chain_strings {
                             let cs: Vec<char> = s.chars().collect();
                             for k in 0..=cs.len() {
                                 combo += 1;
                                 let col = COLOURS[combo % COLOURS.len()];
-                                let al = if combo % 5 == 0 { 1 + combo % 2 } else { 0 };
+                                let al = if combo % 11 == 0 { 1 + combo % 2 } else { 0 };
                                 let s1: String = cs[..k].iter().collect();
                                 let s2: String = cs[k..].iter().collect();
                                 emit(format!(
@@ -564,12 +582,19 @@ impl Module for M {
                         }
                     }
                     for _ in 0..(if thorough { 3000 } else { 400 }) {
-                        let font = rng.pick(&fonts).clone();
+                        let font = if rng.chance(9, 10) { rng.pick(&unspaced).clone() } else { rng.pick(&fonts).clone() };
                         let col = *rng.pick(&COLOURS);
-                        let (s1, s2) = (random_string(rng), random_string(rng));
+                        let (mut s1, mut s2) = (random_string(rng), random_string(rng));
+                        if rng.chance(9, 10) {
+                            // a continuation on the same line; the last line of s1 not ending in a CR
+                            s2 = s2.replace('\n', "");
+                            while s1.ends_with('\r') {
+                                s1.pop();
+                            }
+                        }
                         emit(format!(
                             "text.chain {} {} {} {} {} {} {} {} {} {} {}",
-                            font, rng.below(4), if rng.chance(3, 4) { 0 } else { rng.below(3) }, col.0, col.1, col.2, col.3, rng.range(-50, 50), rng.range(-50, 50), cps_of(&s1), cps_of(&s2)
+                            font, rng.below(4), if rng.chance(9, 10) { 0 } else { rng.below(3) }, col.0, col.1, col.2, col.3, rng.range(-50, 50), rng.range(-50, 50), cps_of(&s1), cps_of(&s2)
                         ));
                     }
                 }
@@ -616,7 +641,7 @@ impl Module for M {
                     ctx.count(if d.is_some() { "tr" } else { "layout" });
                     let (m, n, bb) = check_text(ctx, op, font, builtin, &l);
                     match d {
-                        None => format!("next={} bb={} px={}", fmt_pt(n), fmt_rect(&bb), if l.determined() { fmt_px(&m) } else { "-".into() }),
+                        None => format!("next={} bb={} px={}", fmt_pt(n), fmt_rect(&bb), if !builtin || l.determined() { fmt_px(&m) } else { "-".into() }),
                         Some(d) => {
                             // ---- C07 ---------------------------------------------------------------------
                             let style = style_of(font, l.tc, l.bg, l.ul, l.st);
@@ -637,7 +662,7 @@ impl Module for M {
                                 "next={} bb={} px={} mut={}",
                                 fmt_pt(mn),
                                 fmt_rect(&mbb),
-                                if l.determined() { fmt_px(&mm) } else { "-".into() },
+                                if !builtin || l.determined() { fmt_px(&mm) } else { "-".into() },
                                 if same { "same" } else { "diff" }
                             )
                         }
@@ -664,7 +689,8 @@ impl Module for M {
                     let sp = font.character_spacing as i32;
                     if tc.is_none() && bg.is_none() && sp > 0 && n > 0 {
                         ctx.count("obs:transparent-text-draw-string-returns-trailing-spacing");
-                        ctx.expect(!builtin && dn == m.next_position + Point::new(sp, 0), "C15:draw-return-ne-measure-next", || format!("{:?} vs {:?}", dn, m.next_position));
+                        // outside C15's quantifier (custom spaced font, no colours): either value meets the text
+                        ctx.expect(!builtin && (dn == m.next_position + Point::new(sp, 0) || dn == m.next_position), "C15:draw-return-ne-measure-next", || format!("{:?} vs {:?}", dn, m.next_position));
                     } else {
                         ctx.expect(dn == m.next_position, "C15:draw-return-ne-measure-next", || format!("draw_string {:?} measure_string {:?}", dn, m.next_position));
                     }
